@@ -85,7 +85,11 @@ def check_case(seed, tier, acc, lits):
     texts = doxy.HOSTILE_TEXT if NONPRINTABLE_OK else doxy.PRINTABLE_ONLY
     tree, documented = doxy.from_model(mod, r, texts, flagged=True)   # incl. empty descriptions / defname-only (D27, repaired)
     fault = r.choice(FAULTS)
-    root = tempfile.mkdtemp(prefix='verif_c17_')
+    # one XML directory per worker process, rewritten for every case: documentation regenerated at the same path
+    # (a parser that remembers what it read under a path would serve the previous project's documentation)
+    root = os.path.join(tempfile.gettempdir(), 'verif_c17_p%d' % os.getpid())
+    shutil.rmtree(root, ignore_errors=True)
+    os.makedirs(root)
     vs = []
     try:
         folder = os.path.join(root, 'xml')
@@ -154,6 +158,20 @@ def check_case(seed, tier, acc, lits):
             if len(set(marks)) > 1 and len({(tree.marks[m]['class'], tree.marks[m]['method'], tuple(tree.marks[m]['args']),
                                              tree.marks[m]['ordinal']) for m in set(marks) if m in tree.marks}) > 1:
                 vs.append({'what': 'docstring mixes the documentation of several members', 'markers': sorted(set(marks))})
+        # completeness: with intact XML a documented member's binding carries that member's documentation
+        if fault is None or fault == 'None':
+            by_key = {}
+            for mk, info in tree.marks.items():
+                by_key.setdefault((info['class'], info['method'], tuple(info['args'])), []).append(mk)
+            for call in calls:
+                key = (call['class'], call['method'], tuple(call['args']))
+                if key in by_key:
+                    acc.count('documented_bindings_checked')
+                    if not any(mk in call['text'] for mk in by_key[key]):
+                        vs.append({'what': 'documented member is bound without its documentation',
+                                   'binding': {'class': call['class'], 'method': call['method'], 'args': call['args']},
+                                   'docstring': call['text'][:120]})
+                        break
         # k-th identically named overload gets the k-th member
         seen = {}
         for call in calls:
